@@ -23,6 +23,8 @@
  *           INSERTED announced) -- defect #15: the zombie node is "replaced" instead */
 #include "ht_common.h"
 
+static int verif_case_alloc_fails;   /* concrete per enumerated case: the node allocation of this put fails */
+
 static void verif_case(unsigned nodes, unsigned gnot, unsigned nnot, int match, int m_iters)
 {
 	verif_alloc_fail = 0;
@@ -37,36 +39,36 @@ static void verif_case(unsigned nodes, unsigned gnot, unsigned nnot, int match, 
 	m_iters = m_iters + 1;   /* a removed key's node only exists while an iterator is parked on it */
 #endif
 	void *v = verif_value_new();
-	VERIF_ND(uint8_t, nd_alloc_fails);
 	struct hash_table *t = ht_build(b, nodes, gnot, nnot, match, M_PRESENT, m_iters);
 	int gi = match;
 	size_t count0 = t->count;
-	/* both allocation outcomes, as two concrete sub-cases */
-	if (nd_alloc_fails) {
-		verif_alloc_fail = 1;
-	} else {
-		verif_alloc_fail = 0;
-	}
+	verif_alloc_fail = verif_case_alloc_fails;
 
 	hashtable_put(&t->map, k, v);
 
 	if (gi >= 0 && HG[gi].present) {
 		void *oldv = HG[gi].value;
+#ifndef V_REMOVED
 		COVER(HG_n == 3 && gi == 1);
 		COVER(HG[gi].iters == 1);
 		COVER(HG[gi].notidx >= 0 && HG_gnot == 2);
+#endif
 		HG[gi].value = v;
 		ht_check_notified(QB_MAP_NOTIFY_REPLACED, gi, k, oldv, v);
 		POST(verif_alloc_calls == 0, "replacing a value allocates nothing");
 		ht_check_state(t);
 	} else if (gi < 0) {
 		if (verif_alloc_fail) {
+#ifndef V_REMOVED
 			COVER(1);
+#endif
 			POST(verif_not_total == 0, "a put that fails for lack of memory announces nothing");
 		} else {
 			struct hash_node *nn = ht_find_new(t, b);
+#ifndef V_REMOVED
 			COVER(HG_n == 3);
 			COVER(HG_n == 0 && HG_gnot == 2);
+#endif
 			POST(nn != NULL, "put of an absent key makes it present");
 			if (nn != NULL) {
 				HG[HG_n].n = nn;
@@ -84,7 +86,9 @@ static void verif_case(unsigned nodes, unsigned gnot, unsigned nnot, int match, 
 		ht_check_state(t);
 	} else {
 		/* k is not in the dictionary (removed; its node only survives under an iterator): put inserts it */
+#ifdef V_REMOVED
 		COVER(HG_n == 3);
+#endif
 		POST(t->count == count0 + 1 || verif_alloc_fail, "put of an absent key makes the count grow by one");
 		if (t->count == count0 + 1) {
 			ht_check_notified(QB_MAP_NOTIFY_INSERTED, -1, k, NULL, v);
@@ -95,5 +99,12 @@ static void verif_case(unsigned nodes, unsigned gnot, unsigned nnot, int match, 
 void harness(void)
 {
 	VERIF_ND(uint8_t, nd_case);
-	HT_ENUM_CASES(nd_case, verif_case);
+	VERIF_ND(uint8_t, nd_alloc_fails);
+	if (nd_alloc_fails) {
+		verif_case_alloc_fails = 1;
+		HT_ENUM_CASES(nd_case, verif_case);
+	} else {
+		verif_case_alloc_fails = 0;
+		HT_ENUM_CASES(nd_case, verif_case);
+	}
 }
